@@ -17,7 +17,7 @@
 EXTENDS Instance, Export
 
 \* record field order (tags first), see AGENT_GUIDE addendum
-FieldOrder == [g |-> 0, kind |-> 0, k |-> 0, loc |-> 0, ok |-> 0, op |-> 0, origin |-> 0, st |-> 0, tok |-> 0,
+FieldOrder == [at |-> 0, g |-> 0, kind |-> 0, k |-> 0, ok |-> 0, op |-> 0, origin |-> 0, st |-> 0, tok |-> 0,
                w |-> 0, what |-> 0, arg |-> 0, argAfter |-> 0, calls |-> 0, dev |-> 0, exp |-> 0, m |-> 0, n |-> 0,
                res |-> 0, sched |-> 0]
 
